@@ -176,6 +176,60 @@ def subst_ty(s, sub):
     return s
 
 
+def _split_top(s):
+    """split a generic argument list at top-level commas"""
+    out, depth, cur = [], 0, ""
+    for ch in s:
+        if ch in "<([":
+            depth += 1
+        elif ch in ">)]":
+            depth -= 1
+        if ch == "," and depth == 0:
+            out.append(cur.strip())
+            cur = ""
+        else:
+            cur += ch
+    if cur.strip():
+        out.append(cur.strip())
+    return out
+
+
+def unify_ty(pat, con, params, out):
+    """match the type string `con` against the pattern `pat` whose generic parameters are `params`; lifetimes match anything"""
+    pat, con = pat.strip(), con.strip()
+    if pat.startswith("'") or con.startswith("'"):
+        return pat.startswith("'") and con.startswith("'")
+    if pat in params:
+        if pat in out and out[pat] != con:
+            return False
+        out[pat] = con
+        return True
+    for pre in ("&mut ", "&", "*mut ", "*const "):
+        if pat.startswith(pre) != con.startswith(pre):
+            if pat.startswith(pre) or con.startswith(pre):
+                # `&'a T` vs `&T`: strip lifetimes first
+                pass
+    p2 = re.sub(r"^(&|\*const |\*mut )('\w+ )?(mut )?", lambda m: m.group(1) + (m.group(3) or ""), pat)
+    c2 = re.sub(r"^(&|\*const |\*mut )('\w+ )?(mut )?", lambda m: m.group(1) + (m.group(3) or ""), con)
+    for pre in ("&mut ", "&", "*mut ", "*const "):
+        if p2.startswith(pre) or c2.startswith(pre):
+            if not (p2.startswith(pre) and c2.startswith(pre)):
+                return False
+            return unify_ty(p2[len(pre):], c2[len(pre):], params, out)
+    ph, _, pa = p2.partition("<")
+    ch, _, ca = c2.partition("<")
+    if ph != ch:
+        return False
+    if not pa and not ca:
+        return True
+    if not pa or not ca or not pa.endswith(">") or not ca.endswith(">"):
+        return False
+    pl, cl = _split_top(pa[:-1]), _split_top(ca[:-1])
+    if len(pl) != len(cl):
+        return False
+    return all(unify_ty(x, y, params, out) for x, y in zip(pl, cl))
+
+
 def callee_key(c):
     if c is None:
         return None
@@ -256,6 +310,7 @@ class Engine:
         self.truncated = False
         self.root_subst = None
         self.syn = dict(SYN_MODELS)
+        self.late_resolve = True
 
     # ---- store -------------------------------------------------------------------------
     def read(self, st, loc):
@@ -299,7 +354,8 @@ class Engine:
         for k, x in sorted(ch, key=lambda kv: _depth(kv[0])):
             v2 = _fupdate(v, _relpath(k, loc), x)
             if v2 is None:
-                return ("upd", v, tuple(sorted((repr(k), x) for k, x in ch)))
+                # an opaque value with some of its parts overwritten: keep the overrides by their access path relative to the value
+                return ("upd", v, tuple(sorted(((_names(_relpath(k, loc)), x) for k, x in ch), key=repr)))
             v = v2
         return v
 
@@ -801,6 +857,7 @@ class Engine:
                 return None
         # 2. inlining of local functions
         target_fn = None
+        late_subst = None
         if callee is not None:
             res = callee.get("resolved")
             cands = []
@@ -817,6 +874,18 @@ class Engine:
                     target_fn = f2
                     targs = ta
                     break
+        if target_fn is None and callee is not None and callee.get("trait") and callee.get("self_ty") and self.late_resolve:
+            # a method of a local trait on a receiver type that became concrete only through the inlined caller's generic arguments:
+            # pick the one impl whose self type matches (rustc could not resolve it in the generic body)
+            cands = []
+            for f2 in self.facts.impl_methods(callee["trait"], callee["name"]):
+                b = {}
+                if unify_ty(f2.impl_self, callee["self_ty"], set(getattr(f2, "generics", []) or []), b):
+                    cands.append((f2, b))
+            if len(cands) == 1 and not any(re.fullmatch(r"[A-Z]\w{0,2}|Self", v) for v in [callee["self_ty"]]):
+                target_fn, b = cands[0]
+                targs = None
+                late_subst = b
         if target_fn is None and callee is not None and (callee.get("trait") or "").startswith("core::ops::function::Fn") and args:
             # a closure passed down as `impl Fn*` / generic F and called there: after inlining, its value is known
             cv = args[0]
@@ -858,6 +927,8 @@ class Engine:
                 nsub = dict(zip(gen, targs))
             if not nsub and "{closure" in target_fn.canon:
                 nsub = dict(fr.get("subst") or {})       # a closure shares the generic parameters of the function that wrote it
+            if late_subst:
+                nsub = dict(late_subst)
             st.frames.append({"fn": target_fn, "fid": fid, "bb": 0, "dest": dest, "ret_to": t["target"],
                               "cev": ev, "subst": nsub})
             return None
@@ -1000,8 +1071,29 @@ def _fupdate(v, path, x):
     return None
 
 
+def _names(path):
+    out = []
+    for step in path:
+        if step[0] == "F":
+            out.append(step[2])
+        elif step[0] == "D":
+            out.append("as " + step[2])
+        elif step[0] == "I":
+            out.append("[%s]" % (step[2][1] if is_c(step[2]) else "?"))
+        else:
+            out.append("?")
+    return tuple(out)
+
+
 def proj_field(pv, name):
     k = pv[0]
+    if k == "upd":
+        exact = [x for pth, x in pv[2] if pth == (name,)]
+        if exact:
+            return exact[-1]
+        deeper = tuple((pth[1:], x) for pth, x in pv[2] if pth and pth[0] == name)
+        inner = proj_field(pv[1], name)
+        return ("upd", inner, deeper) if deeper else inner
     if k == "agg" and pv[4] is not None:
         if name in pv[4]:
             return pv[5][pv[4].index(name)]
@@ -2017,6 +2109,54 @@ def _m_iter_next(eng, st, callee, args, ev):
     return _m_range_next(eng, st, callee, args, ev)
 
 
+def _store(eng, st, ev, loc, val):
+    eng.write(st, loc, val)
+    st.events.append({"k": "write", "loc": loc, "val": val, "fn": st.frames[-1]["fn"], "bb": st.frames[-1]["bb"], "line": None, "pc": len(st.pc)})
+
+
+def _m_ptr_write(eng, st, callee, args, ev):
+    """ptr.write(v) / ptr::write(ptr, v): a store through the pointer"""
+    if len(args) != 2:
+        return NotImplemented
+    p = args[0]
+    loc = p[1] if p[0] == "ref" else ("P", p)
+    _store(eng, st, ev, loc, args[1])
+    return UNIT
+
+
+def _known_elems_at(eng, st, src, n):
+    """the n elements a pointer term points at, when it is the start of a known small array / one-element view"""
+    base = src
+    if base[0] == "call" and (base[2] or "").endswith(("::as_ptr", "::as_mut_ptr")) and base[3]:
+        sp = slice_parts(eng, st, base[3][0])
+        if sp is None:
+            return None
+        b0, lo, hi = sp
+        if not (is_c(lo) and is_c(hi)) or hi[1] - lo[1] < n:
+            return None
+        out = []
+        for i in range(n):
+            v = eng.read(st, eng._index_loc(("S", b0, lo, hi), C(i, "usize")))
+            out.append(v)
+        return out
+    return None
+
+
+def _m_copy_nonoverlapping(eng, st, callee, args, ev):
+    """ptr::copy_nonoverlapping(src, dst, n) with a small constant n from a known source: n stores"""
+    if len(args) != 3 or not is_c(args[2]) or args[2][1] > 16:
+        return NotImplemented
+    n = args[2][1]
+    elems = _known_elems_at(eng, st, args[0], n)
+    if elems is None:
+        return NotImplemented
+    d = args[1]
+    for i, v in enumerate(elems):
+        loc = ("P", d) if i == 0 else ("P", mk_bin("Add", d, C(i, "usize"), "usize"))
+        _store(eng, st, ev, loc, v)
+    return UNIT
+
+
 def _m_ptr_range(eng, st, callee, args, ev):
     sp = slice_parts(eng, st, args[0], callee.get("self_ty"))
     if sp is None or sp[0][0] != "P":
@@ -2047,6 +2187,13 @@ def _m_as_ptr(eng, st, callee, args, ev):
 
 
 SLICE_MODELS = {
+    "std::ptr::mut_ptr::<impl *mut T>::write": _m_ptr_write,
+    "core::ptr::mut_ptr::<impl *mut T>::write": _m_ptr_write,
+    "std::ptr::write": _m_ptr_write,
+    "core::ptr::write": _m_ptr_write,
+    "std::ptr::copy_nonoverlapping": _m_copy_nonoverlapping,
+    "core::ptr::copy_nonoverlapping": _m_copy_nonoverlapping,
+    "std::intrinsics::copy_nonoverlapping": _m_copy_nonoverlapping,
     "core::slice::<impl [T]>::iter": _m_slice_iter,
     "core::slice::<impl [T]>::iter_mut": _m_slice_iter,
     "core::slice::<impl [T]>::as_ptr_range": _m_ptr_range,
